@@ -82,23 +82,96 @@ def fmt_thresholds(c):
         T.append(min(t, 0xFFFFFFFF)); b += 1
         if t >= 65536: return T
 
+FMT_SPLIT = 4096
+
 def fmt_obs(tier):
     q = tier == 'quick'
     H = 'harness/C01/fmt_b.c'
     ZZ = ['src/math/zz/zz_add.c', 'src/math/zz/zz_mul.c', 'src/math/zz/zz_mod.c', 'src/math/zz/zz_etc.c', 'src/math/ww.c']
-    counts = [1, 2, 3, 8, 64, 150, 159, 160, 161, 299, 300] if q else list(range(1, 301))
+    # measured: ~20 ms of solver time per value of mod (60-120 s per range of 4096 values, ~1300 s per count), so
+    #   quick:    count 2 over the whole mod domain in one query (250 s), count 160 (the count of the exception documented
+    #             in belt_fmt.c) on the two top ranges [49152, 53247] and [61440, 65536]
+    #   thorough: the counts below over the complete mod domain
+    counts = [2, 160] if q else [1, 2, 3, 8, 64, 150, 159, 160, 161, 299, 300]
     obs = []
     for c in counts:
         T = fmt_thresholds(c)
-        args = '%d, (const u32[]){%s}, %d, 2, 65536' % (c, ', '.join('%uu' % t for t in T), len(T))
-        obs.append(Ob(name='c01_fmt_calcB_c%03d' % c, harness=H, instances=[('h_b_%d' % c, args)], srcs=CORE + ZZ, unwind=20, timeout=300,
-                      backend=['cadical', 'kissat'], funcs=['beltFMTCalcB', 'zzMulW', 'zzDiv', 'zzAdd2', 'zzSub2'],
-                      bound='count = %d (beltFMT count %d..%d), every mod in [2, 65536]; %d exact thresholds' % (c, max(2, 2 * c - 1), 2 * c, len(T))))
+        tab = '(const u32[]){%s}, %d' % (', '.join('%uu' % t for t in T), len(T))
+        # case split of the mod domain into aligned ranges (complete cover of [2, 65536]); inside a range mod is symbolic
+        step = FMT_SPLIT
+        inst = [('h_b_%d_%05d' % (c, lo), '%d, %s, %d, %d' % (c, tab, max(lo, 2), min(lo + step - 1, 65536) + (lo + step == 65536))) for lo in range(0, 65536, step)]
+        dom = 'every mod in [2, 65536] (case split into %d ranges, mod symbolic inside each)' % len(inst)
+        if q and c == 2:
+            inst = [('h_b_2_all', '%d, %s, 2, 65536' % (c, tab))]; dom = 'every mod in [2, 65536]'
+        elif q:
+            inst = [i for i in inst if i[0].endswith(('_49152', '_61440'))]; dom = 'every mod in [49152, 53247] and [61440, 65536]'
+        obs.append(Ob(name='c01_fmt_calcB_c%03d' % c, harness=H, instances=inst,
+                      srcs=CORE + [f if not f.endswith('zz_mul.c') else (f, {'remove': ['zzDiv']}) for f in ZZ], stub_files=['stubs/zzdiv_u128.c'],
+                      stubs=['zzDiv -> one 128-bit division (stubs/zzdiv_u128.c)'], unwind=4, unwind_rules=[(r'^vp_body\.', len(T) + 2)], timeout=300,
+                      backend=['cadical', 'kissat'], funcs=['beltFMTCalcB', 'zzMulW', 'zzAdd2', 'zzSub2', 'zzSubW2', 'wwSetBit'],
+                      bound='count = %d (beltFMT count %d..%d), %s; %d exact thresholds' % (c, max(2, 2 * c - 1), 2 * c, dom, len(T))))
+    return obs
+
+
+MCORE = [f if not f.endswith('mem.c') else (f, {'remove': ['memWipe', 'memIsDisjoint2']}) for f in CORE]
+
+def mode_obs(tier):
+    q = tier == 'quick'
+    H = 'harness/C01/modes.c'
+    obs = []
+    def m(name, mode, lens, srcs, funcs, klens=(32,), uf=UF, **kw):
+        inst = [('h_%s_%d_k%d' % (name, n, kl), '%d, %d' % (n, kl)) for kl in klens for n in lens]
+        d = dict(name='c01_mode_%s' % name, harness=H, defs=['MODE=%d' % mode, 'MAXN=%d' % max(max(lens), 1)], instances=inst,
+                 srcs=MCORE + [B + 'belt_lcl.c', BLOCK] + [B + f for f in srcs], stub_files=uf + ['stubs/memwipe_nop.c', 'stubs/mem_disjoint_obj.c'], stubs=['belt_block_uf', 'memWipe -> no-op', 'memIsDisjoint2 object-aware'], blob_exact=True, unwind=max(lens) + 20,
+                 unwind_rules=[(r'^belt\w+Step\w*\.\d+$', max(lens) // 16 + 2)], cbmc_extra=FS, timeout=300, mem_gb=6, replay='native', funcs=funcs,
+                 bound='every length in %d..%d x key length %s: %d instances, message/ciphertext/key/IV symbolic' % (min(lens), max(lens), list(klens), len(inst)))
+        d.update(kw)
+        return Ob(**d)
+    K3 = (16, 24, 32)
+    hi = 49 if q else 81
+    obs.append(m('ecb', 1, range(16, hi + 1), ['belt_ecb.c'], ['beltECBEncr', 'beltECBDecr', 'beltECBStart', 'beltECBStepE', 'beltECBStepD']))
+    obs.append(m('ecb_k', 1, (16, 37), ['belt_ecb.c'], ['beltECBEncr', 'beltECBDecr'], klens=(16, 24)))
+    obs.append(m('cbc', 2, range(16, hi + 1), ['belt_cbc.c'], ['beltCBCEncr', 'beltCBCDecr', 'beltCBCStart', 'beltCBCStepE', 'beltCBCStepD']))
+    obs.append(m('cbc_k', 2, (16, 37), ['belt_cbc.c'], ['beltCBCEncr', 'beltCBCDecr'], klens=(16, 24)))
+    lo = 33 if q else 65
+    obs.append(m('cfb', 3, range(0, lo + 1), ['belt_cfb.c'], ['beltCFBEncr', 'beltCFBDecr', 'beltCFBStart', 'beltCFBStepE', 'beltCFBStepD']))
+    obs.append(m('cfb_k', 3, (0, 21), ['belt_cfb.c'], ['beltCFBEncr', 'beltCFBDecr'], klens=(16, 24)))
+    obs.append(m('ctr', 4, range(0, lo + 1), ['belt_ctr.c'], ['beltCTR', 'beltCTRStart', 'beltCTRStepE']))
+    obs.append(m('ctr_k', 4, (0, 21), ['belt_ctr.c'], ['beltCTR'], klens=(16, 24)))
+    obs.append(m('mac', 5, range(0, lo + 1), ['belt_mac.c'], ['beltMAC', 'beltMACStart', 'beltMACStepA', 'beltMACStepG', 'beltMACStepV']))
+    obs.append(m('mac_k', 5, (0, 16, 21), ['belt_mac.c'], ['beltMAC'], klens=(16, 24)))
+    return obs
+
+
+def aead_obs(tier):
+    q = tier == 'quick'
+    H = 'harness/C01/aead.c'
+    obs = []
+    LCLUF = (B + 'belt_lcl.c', {'remove': ['beltPolyMul']})
+    def a(name, mode, shapes, srcs, funcs, lcl, stubf, stubs, **kw):
+        inst = [('h_%s_%d_%d_k%d' % (name, n1, n2, kl), '%d, %d, %d' % (n1, n2, kl)) for (n1, n2, kl) in shapes]
+        mx = max(max(s[0], s[1]) for s in shapes)
+        d = dict(name='c01_aead_%s' % name, harness=H, defs=['MODE=%d' % mode, 'MAXN=%d' % mx], instances=inst,
+                 srcs=MCORE + ['src/math/pp/pp_mul.c', 'src/math/ww.c', lcl, BLOCK] + [B + f for f in srcs], checks=[], stub_files=UF + ['stubs/memwipe_nop.c', 'stubs/mem_disjoint_obj.c'] + stubf, stubs=['belt_block_uf', 'memWipe -> no-op', 'memIsDisjoint2 object-aware'] + stubs, blob_exact=True,
+                 unwind=mx + 40, unwind_rules=[(r'^belt\w+Step\w*\.\d+$', mx // 16 + 3)], cbmc_extra=FS, timeout=300, mem_gb=6, replay='native', funcs=funcs,
+                 bound='(data length, associated data length / null header, key length) in %s, all data symbolic' % (sorted(shapes),))
+        d.update(kw)
+        return Ob(**d)
+    sh = [(0, 0, 32), (0, 17, 32), (5, 0, 32), (16, 16, 16), (21, 7, 24), (33, 20, 32)] if q else \
+         [(n1, n2, 32) for n1 in range(0, 36, 5) for n2 in (0, 7, 16, 33)] + [(16, 16, 16), (21, 7, 24)]
+    pm = ['stubs/belt_polymul_uf.c']; pms = ['beltPolyMul uninterpreted']
+    obs.append(a('dwp', 1, sh, ['belt_dwp.c', 'belt_ctr.c'], ['beltDWPWrap', 'beltDWPUnwrap', 'beltDWPStart', 'beltDWPStepI', 'beltDWPStepE', 'beltDWPStepA', 'beltDWPStepD', 'beltDWPStepG', 'beltDWPStepV'], LCLUF, pm, pms))
+    obs.append(a('che', 2, sh, ['belt_che.c', 'belt_ctr.c'], ['beltCHEWrap', 'beltCHEUnwrap', 'beltCHEStart', 'beltCHEStepI', 'beltCHEStepE', 'beltCHEStepA', 'beltCHEStepD', 'beltCHEStepG', 'beltCHEStepV'], LCLUF, pm, pms))
+    ksh = [(16, 0, 32), (17, 0, 16), (24, 1, 24), (32, 0, 32), (40, 1, 32)] if q else [(n, h, 32) for n in range(16, 65) for h in (0, 1)] + [(17, 0, 16), (24, 1, 24)]
+    obs.append(a('kwp', 3, ksh, ['belt_kwp.c', 'belt_wbl.c'], ['beltKWPWrap', 'beltKWPUnwrap', 'beltWBLStart', 'beltWBLStepE', 'beltWBLStepD2'], B + 'belt_lcl.c', [], [],
+                 unwind_rules=[(r'^beltWBL\w+\.\d+$', 12)]))
     return obs
 
 
 def obligations(tier):
     obs = []
+    obs += aead_obs(tier)
+    obs += mode_obs(tier)
     obs += fmt_obs(tier)
     obs += block_obs(tier)
     obs += lcl_obs(tier)
